@@ -175,7 +175,7 @@ func compactVal(f spdy.Frame) hv.Val {
 
 var compactMode bool
 
-// readAll: ReadFrame until a connection-level error (anything that is not *spdy.Error) or 64 frames.
+// readAll: ReadFrame until the first error or 64 frames.
 func readAll(wire []byte, withOff bool) hv.Val {
 	rr := &recReader{r: bytes.NewReader(wire)}
 	fr, err := spdy.NewFramer(io.Discard, rr)
@@ -190,8 +190,7 @@ func readAll(wire []byte, withOff bool) hv.Val {
 		stop := false
 		if err != nil {
 			v = errVal(err)
-			kind, _, _ := spdy.VerifErrCode(err)
-			stop = kind == 2
+			stop = true // BFE closes the session on every ReadFrame error
 		} else if compactMode {
 			v = compactVal(f)
 		} else {
@@ -287,7 +286,7 @@ func impl(in hv.Val) hv.Val {
 		}
 		fw.ReleaseWriter()
 		if buf.Len() < 12 {
-			return hv.L{hv.B(nil), hv.I(buf.Len())}
+			return hv.L{hv.B([]byte{}), hv.I(buf.Len())}
 		}
 		return hv.L{hv.B(append([]byte(nil), buf.Bytes()[:12]...)), hv.I(buf.Len())}
 	case 7: // SETTINGS with n entries
@@ -307,7 +306,10 @@ func impl(in hv.Val) hv.Val {
 		}
 		fw.WriteFrame(f)
 		w := buf.Len()
-		hdr := append([]byte(nil), buf.Bytes()[:12]...)
+		hdr := []byte{}
+		if w >= 12 {
+			hdr = append(hdr, buf.Bytes()[:12]...)
+		}
 		fw.WriteFrame(&spdy.PingFrame{Id: 7})
 		fw.ReleaseWriter()
 		var rb hv.Val = hv.L{}
